@@ -5,6 +5,7 @@ go 1.18
 require (
 	github.com/anishathalye/porcupine v1.3.0
 	github.com/bmeg/grip v0.0.0
+	github.com/hashicorp/go-multierror v1.0.0
 	github.com/jmoiron/sqlx v1.2.0
 	google.golang.org/genproto v0.0.0-20230303212802-e74f57abe488
 	google.golang.org/grpc v1.53.0
@@ -45,7 +46,6 @@ require (
 	github.com/grpc-ecosystem/grpc-gateway/v2 v2.15.2 // indirect
 	github.com/hashicorp/errwrap v1.0.0 // indirect
 	github.com/hashicorp/go-hclog v0.14.1 // indirect
-	github.com/hashicorp/go-multierror v1.0.0 // indirect
 	github.com/hashicorp/go-plugin v1.4.2 // indirect
 	github.com/hashicorp/yamux v0.0.0-20180604194846-3520598351bb // indirect
 	github.com/influxdata/tdigest v0.0.1 // indirect
